@@ -183,6 +183,8 @@ def c2s_records(rng, n):
             nn, dd = rng.randint(-3000, 3000), rng.randint(1, 1000)
             how = rng.random()
             if how < 0.4:
+                if rng.random() < 0.3:
+                    dd = -dd                                    # a pair is exactly that rational, whatever the signs
                 got = Beat(nn, dd)
             elif how < 0.7:
                 got = Beat(Fraction(nn, dd))
